@@ -3,10 +3,14 @@
 #ifdef __cplusplus
 extern "C" {
 #endif
-extern int gh_lc_phase;
-extern unsigned long gh_n;        /* number of symbols recorded under the exported name */
+extern int gh_lc_phase, gh_lc_phase_inner;
+extern unsigned long gh_nnames;   /* number of __ksymtab_-exported names */
+extern unsigned long gh_wname;    /* watched name (position in the iteration order of the set) */
+extern int gh_wname_found;        /* it has symbols in name_symbol_map_ */
+extern unsigned long gh_n;        /* number of symbols recorded under the watched name */
 extern unsigned long gh_w;        /* watched symbol (index in that list) */
 extern int gh_w_public, gh_w_old; /* is it public; was it marked before */
+extern unsigned long gh_cur_name; /* name the map iterator handed out last refers to */
 #ifdef __cplusplus
 }
 #endif
